@@ -128,7 +128,10 @@ def dag(draw):
     # some bursts change the sources many times before the simulator gets to run
     repeats = [draw(st.sampled_from([1, 1, 2, 3 * nblocks + 2, 25])) for _ in range(4)]
     return {'class': 'dag', 'nsrc': nsrc, 'preds': preds, 'order': list(order), 'values': values,
-            'repeats': repeats}
+            'repeats': repeats,
+            # the sources also send an output event that its destination refuses for odd values
+            # (EdzedUnknownEvent: reported to the caller, the simulation goes on)
+            'picky': draw(st.booleans())}
 
 
 def strategy(tier):
@@ -182,7 +185,18 @@ def execute(case):
                             on_output=edzed.Event('s0', 'put')).connect(prev)
         else:
             nsrc = case['nsrc']
-            srcs = [edzed.Input(f's{i}', initdef=0) for i in range(nsrc)]
+            kw = {}
+            if case.get('picky'):
+                class Picky(edzed.SBlock):
+                    def init_regular(self):
+                        self.set_output(0)
+
+                    def _event(self, etype, data):
+                        if data.get('value', 0) % 2:
+                            raise edzed.EdzedUnknownEvent(f"{self}: Unknown event type {etype!r}")
+                Picky('picky')
+                kw['on_output'] = edzed.Event('picky', 'take')
+            srcs = [edzed.Input(f's{i}', initdef=0, **kw) for i in range(nsrc)]
             names = [f's{i}' for i in range(nsrc)] + [f'c{j}' for j in range(len(case['preds']))]
             for j in case['order']:
                 edzed.FuncBlock(f'c{j}', func=counted(lambda args: sum(args)), unpack=False).connect(
@@ -211,7 +225,10 @@ def execute(case):
             for r in range(reps - 1, -1, -1):
                 # 'reps' successive changes of every source without yielding; the last one is 'vec'
                 for s, v in zip(srcs, vec):
-                    edzed.ExtEvent(s).send(v + 1000 * r if cls == 'dag' else v)
+                    try:
+                        edzed.ExtEvent(s).send(v + 1000 * r if cls == 'dag' else v)
+                    except edzed.EdzedUnknownEvent:
+                        obs['refused'] = obs.get('refused', 0) + 1
             await harness.quiesce(loop)
             snapshot(f'burst {k}', vec)
         await sim.stop()
@@ -275,6 +292,8 @@ def execute(case):
         res.classes = ['acyclic within margin', f"paths/blocks {min(3, total // nblocks)}.x"]
         if any(r > 2 for r in case.get('repeats', [])):
             res.classes.append('burst with many changes of one source')
+        if obs.get('refused'):
+            res.classes.append("source's output event refused by its destination (non-fatal)")
     else:
         res.nontrivial = required or settled
         res.classes = ['cyclic network' if cls == 'cyclic' else 'event feedback']
